@@ -12,8 +12,8 @@ from .c09 import finish
 
 KINDS = {
     'C01': ['flat', 'combo', 'multi', 'nested', 'tworoots', 'payload', 'targs:nested_arg', 'targs:generic', 'combo'],
-    'C02': ['flat', 'multi', 'nested', 'nested', 'unsized', 'split', 'nestedx', 'tworoots', 'payload', 'arity', 'targs:nested_arg', 'combo', 'combo', 'targs:unsized_where'],
-    'C04': ['overlap', 'overlap', 'flat', 'nested', 'overlap', 'nestedx', 'targs:nested_arg', 'arity', 'tworoots_overlap'],
+    'C02': ['flat', 'multi', 'nested', 'nested', 'unsized', 'split', 'nestedx', 'tworoots', 'payload', 'arity', 'targs:nested_arg', 'combo', 'combo', 'targs:unsized_where', 'fnnest', 'targs:reflexive_mix', 'targs:repeated_arg'],
+    'C04': ['overlap', 'overlap', 'flat', 'nested', 'overlap', 'nestedx', 'targs:nested_arg', 'arity', 'tworoots_overlap', 'fnnest'],
 }
 PREFIX = {'C01': ['C01_'], 'C02': ['C02_'], 'C04': ['C04_']}
 
@@ -66,6 +66,11 @@ def run_prop(prop, tier, seed, replay=None, make_cases=None):
             seen[k] = seen.get(k, 0) + 1
         return out
     cases = make_cases(rng, n) if make_cases else systematic(n)
+    spell = ['?Sized', '?core::marker::Sized', '?Sized', '?::core::marker::Sized', '?std::marker::Sized']
+    for i, c in enumerate(cases):
+        for bi, b in enumerate(c.blocks):
+            if b.relaxed:
+                b.sized_spelling = spell[(i + bi) % len(spell)]    # `Sized` named through a path
     for i, c in enumerate(cases):
         if i % 7 == 5 and c.trait_name:
             c.trait_prefix = 'self::'       # the blocks name the trait through a two-segment path
